@@ -482,6 +482,7 @@ class Interp:
         self.stub_log = []
         self.havoc_reads = []
         self.branches = 0
+        self.arms = 0
         self.max_steps = max_steps
         from . import lib
         self.lib = lib.Library(self)
@@ -890,6 +891,7 @@ class Interp:
                 arms.append((oc, t[3]))
         if len(arms) == 1:
             return ('goto', arms[0][1])
+        self.arms += len(arms)
         # group arms with the same target
         join = fr.fn.ipdom.get(bb)
         if join is None:
